@@ -111,10 +111,11 @@ def point_block(block):
     st = _prep_point()
     E, T = st['E'], st['T']
     obs = []
-    for (n, where, fill, unit_kw) in block:
-        cfg = f"n={n}|query={where}|fill={fill}|units={'+'.join(f'{k}={v}' for k, v in unit_kw.items()) or 'stored'}"
+    for item in block:
+        (n, where, fill, unit_kw), history = item[:4], (item[4] if len(item) > 4 else None)
+        cfg = f"n={n}|query={where}|fill={fill}|units={'+'.join(f'{k}={v}' for k, v in unit_kw.items()) or 'stored'}" + (f"|after:{history}" if history else '')
         base = f"{P}/PointIsotherm.spreading_pressure_at"
-        replay = {'kind': 'c11.point', 'n': n, 'where': where, 'fill': fill, 'unit_kw': unit_kw}
+        replay = {'kind': 'c11.point', 'n': n, 'where': where, 'fill': fill, 'unit_kw': unit_kw, 'history': history}
         eng = sx.Engine(max_paths=512)
 
         def run():
@@ -128,6 +129,17 @@ def point_block(block):
             for i in range(n):
                 eng.assume(ps[i] > (ps[i - 1] if i else 0))
                 eng.assume(ls[i] > (ls[i - 1] if i else 0))
+            if history:
+                # the isotherm was used before (its interpolator exists) and then converted in place by the real method:
+                # the integral is that of the data as stored *now*
+                q0 = eng.real('q0', positive=True)
+                eng.assume((q0 > ps[0]) & (q0 < ps[-1]))
+                iso.spreading_pressure_at(q0)
+                if history == 'used+convert_loading(unit_to=mol)':
+                    iso.convert_loading(unit_to='mol')
+                elif history == 'used+convert_pressure(unit_to=kPa)':
+                    iso.convert_pressure(unit_to='kPa')
+                ps, ls = iso.data_raw.cols['pressure'], iso.data_raw.cols['loading']
             # the query is given in the requested representation; data in that representation:
             fp = sx.SymReal(T.U_P['bar'] / T.U_P[unit_kw['pressure_unit']]) if 'pressure_unit' in unit_kw else sx.SymReal(1)
             fl = sx.SymReal(T.U_N['mmol'] / T.U_N[unit_kw['loading_unit']]) if 'loading_unit' in unit_kw else sx.SymReal(1)
@@ -206,6 +218,10 @@ def point_cfgs(tier):
         for w in wheres:
             for fill in (None, 'extrapolate'):
                 out.append((n, w, fill, {}))
+        if n == 3:
+            for w in ('below', 'between:0', 'between:1', 'at_last'):
+                for h in ('used+convert_loading(unit_to=mol)', 'used+convert_pressure(unit_to=kPa)'):
+                    out.append((n, w, None, {}, h))
         for w in ('below', 'between:0', 'at_last'):
             out.append((n, w, None, {'pressure_unit': 'Pa'}))
             out.append((n, w, None, {'loading_unit': 'mol'}))
